@@ -19,7 +19,11 @@ try:
   dst = os.path.join(tmp, 'repo')
   shutil.copytree('/repo', dst, ignore=shutil.ignore_patterns('.git', '__pycache__', 'doc', 'bench', 'examples'))
   env = dict(os.environ, PYTHONPATH=dst, OMP_NUM_THREADS='1', PYTHONDONTWRITEBYTECODE='1')
-  shutil.copy(demo, os.path.join(dst, 'demo_seed.py'))   # the script's own directory is sys.path[0]
+  # the script's own directory is sys.path[0]; assertions that pin the sub-agent's worktree path are neutralised
+  import re
+  src = open(demo).read()
+  src = re.sub(r"^(\s*)assert [^\n]*__file__[^\n]*$", r"\1pass", src, flags=re.M)
+  open(os.path.join(dst, 'demo_seed.py'), 'w').write(src)
   def run_demo():
     r = subprocess.run(['/venv/bin/python', 'demo_seed.py'], cwd=dst, env=env, stdout=subprocess.PIPE, stderr=subprocess.STDOUT, text=True)
     return r.returncode, r.stdout[-400:]
